@@ -306,8 +306,10 @@ Proof.
   - (* VCommented *)
     cbn [vsize] in Hn. rewrite <- trb_truthy. apply IHn; [lia|exact Hwf].
   - (* VTrailing *)
-    cbn [vsize] in Hn. change (match c with [] => false | _ :: _ => true end) with (trb (Some c)).
-    apply IHn; [lia|exact Hwf].
+    cbn [vsize] in Hn.
+    assert (E : (trb tr || match c with [] => false | _ :: _ => true end)%bool = trb (Some (joinc (truthy tr) c))).
+    { unfold joinc. destruct tr as [[|a t]|], c as [|b c']; reflexivity. }
+    rewrite E. apply IHn; [lia|exact Hwf].
   - (* VCall *)
     rewrite vsize_call in Hn. destruct Hwf as (Hf & Ha & Hk).
     apply wf_list_Forall in Ha. apply wf_kw_Forall in Hk.
